@@ -6,15 +6,23 @@ write_xlsx(path, numfmts, cellxfs, is_1904, cells, **layout)
   cells   : list of dicts {s: int|None, v: text, t: "n"|None, f: formula text|None}
             all placed on row 1, columns A.. in order
   layout  : date1904 spelling, namespace prefix, extra cellStyleXfs/dxfs decoys, escaping mode
-            (escape=False: the format codes are already attribute text, e.g. from the Coq encoder)
+            (escape = 0 named entities, 1 decimal, 2 hexadecimal character references)
 """
 import zipfile
 
-def xml_escape_attr(s, gt=True):
-    s = s.replace("&", "&amp;").replace("<", "&lt;").replace('"', "&quot;")
-    if gt:
-        s = s.replace(">", "&gt;")
-    return s
+def xml_escape_attr(s, gt=True, mode=0):
+    """attribute-value escaping; mode 0: named entities, 1: decimal character references,
+    2: hexadecimal character references (also for the apostrophe)"""
+    if mode == 0:
+        s = s.replace("&", "&amp;").replace("<", "&lt;").replace('"', "&quot;")
+        return s.replace(">", "&gt;") if gt else s
+    out = []
+    for ch in s:
+        if ch in '&<"' or (ch == ">" and gt) or ch == "'":
+            out.append(("&#%d;" % ord(ch)) if mode == 1 else ("&#x%X;" % ord(ch)))
+        else:
+            out.append(ch)
+    return "".join(out)
 
 def col_name(i):
     s = ""
@@ -47,14 +55,14 @@ WB_RELS = (
 NS = "http://schemas.openxmlformats.org/spreadsheetml/2006/main"
 NSR = "http://schemas.openxmlformats.org/officeDocument/2006/relationships"
 
-def styles_xml(numfmts, cellxfs, prefix="", decoys=False, gt=True, escape=True):
+def styles_xml(numfmts, cellxfs, prefix="", decoys=False, gt=True, escape=0):
     p = prefix + ":" if prefix else ""
     xmlns = 'xmlns:%s="%s"' % (prefix, NS) if prefix else 'xmlns="%s"' % NS
     out = ['<?xml version="1.0" encoding="UTF-8" standalone="yes"?>', '<%sstyleSheet %s>' % (p, xmlns)]
     if numfmts:
         out.append('<%snumFmts count="%d">' % (p, len(numfmts)))
         for i, code in numfmts:
-            out.append('<%snumFmt numFmtId="%s" formatCode="%s"/>' % (p, i, xml_escape_attr(code, gt) if escape else code))
+            out.append('<%snumFmt numFmtId="%s" formatCode="%s"/>' % (p, i, xml_escape_attr(code, gt, escape)))
         out.append('</%snumFmts>' % p)
     out.append('<%sfonts count="1"><%sfont><%ssz val="11"/></%sfont></%sfonts>' % (p, p, p, p, p))
     out.append('<%sfills count="1"><%sfill><%spatternFill patternType="none"/></%sfill></%sfills>' % (p, p, p, p, p))
@@ -101,7 +109,7 @@ def workbook_xml(date1904):
             '<workbook xmlns="%s" xmlns:r="%s">%s<sheets><sheet name="S" sheetId="1" r:id="rId1"/></sheets></workbook>'
             % (NS, NSR, pr))
 
-def write_xlsx(path, numfmts, cellxfs, date1904, cells, prefix="", decoys=False, gt=True, escape=True):
+def write_xlsx(path, numfmts, cellxfs, date1904, cells, prefix="", decoys=False, gt=True, escape=0):
     with zipfile.ZipFile(path, "w", zipfile.ZIP_DEFLATED) as z:
         z.writestr("[Content_Types].xml", CONTENT_TYPES)
         z.writestr("_rels/.rels", ROOT_RELS)
